@@ -209,6 +209,14 @@ def probes():
         ('head', 'HEAD', q, {}),
     ]:
         P.append(('http', name, method, query, kw))
+    # requests that arrive as WebSocket handshakes (browsers send Accept-Encoding on those too)
+    for name, query in [
+        ('ws_unknown_gzip', 'EIO=4&transport=websocket&sid=nosuchsid-nosuchsid'),
+        ('ws_bad_eio_gzip', 'EIO=3&transport=websocket'),
+        ('ws_bad_transport_gzip', 'EIO=4&transport=bogus&sid=$'),
+        ('ws_open_gzip', 'EIO=4&transport=websocket'),
+    ]:
+        P.append(('ws', name, 'GET', query, {'headers': {'Accept-Encoding': 'gzip, deflate, br'}}))
     for name, fn, args in [
         ('send', 'send', ('$', 'x')), ('send_unknown', 'send', ('nosuchsid', 'x')),
         ('send_bytes', 'send', ('$', b'\x00')),
@@ -232,6 +240,8 @@ def run_probe(impl, hist, probe, out):
         if kind == 'http':
             _, _, method, query, kw = probe
             h = w.http(method, query.replace('$', sid), **kw)
+        elif kind == 'ws':
+            h = w.ws(probe[3].replace('$', sid), headers=probe[4]['headers'])
         else:
             _, _, fn, args, _ = probe
             # who could drain the packet queue(s) the call may have to wait for: per live session, 'websocket' (writer task),
@@ -284,6 +294,10 @@ def run_probe(impl, hist, probe, out):
         for s in w.wss:
             if s.gateway_errors:
                 V('malformed_ws_events', 'websocket_scope', '; '.join(s.gateway_errors))
+            elif s.exc:
+                V('exception_escaped', ('probe=' + name) if s is h else 'history_websocket',
+                  'WebSocket handshake request raised %s: %s at %s' % (s.exc['type'], s.exc['text'], s.exc['site']),
+                  (s.exc['site'] or ['unknown'])[-1])
         return True
     finally:
         w.teardown()
